@@ -1,0 +1,1 @@
+//! Verification hooks for the `noise` domain (`--cfg litep2p_verif` only).
